@@ -46,6 +46,10 @@ func init() {
 		{File: "pkg/op/verifier_jwt_profile.go", Name: "NewJWTProfileVerifier", Lean: "NewJWTProfileVerifier", PlainUpdate: true, LoopStyle: "forFirst",
 			Params: []string{"(storage : AsrtStorage)", "(issuer : String)", "(maxAgeIAT offset : Int)", "(opts : List AsrtVerifierOption)"},
 			Ret:    RetVal, RetType: "AsrtVerifierGo", Rename: rn(nil)},
+		// (deep 4) the second public constructor: a verifier with a key set of its own instead of the storage
+		{File: "pkg/op/verifier_jwt_profile.go", Name: "NewJWTProfileVerifierKeySet", Lean: "NewJWTProfileVerifierKeySet", PlainUpdate: true, LoopStyle: "forFirst",
+			Params: []string{"(keySet : KeySet)", "(issuer : String)", "(maxAgeIAT offset : Int)", "(opts : List AsrtVerifierOption)"},
+			Ret:    RetVal, RetType: "AsrtVerifierGo", Rename: rn(nil)},
 		// the getter: built per request, for the issuer of THIS request
 		{File: "pkg/op/op.go", Name: "Provider.JWTProfileVerifier", Lean: "ProviderJWTProfileVerifier", PlainUpdate: true, LoopStyle: "forFirst",
 			Params: []string{pI, "(o : AsrtProvider)"}, Ret: RetVal, RetType: "AsrtVerifierGo",
@@ -55,7 +59,7 @@ func init() {
 		ep(FuncSpec{File: "pkg/op/client.go", Name: "ClientJWTAuth", Lean: "ClientJWTAuth",
 			Params: []string{pI, "(ca : AsrtAssertionParams)", "(verifier : AsrtProvider)"}, Ret: RetValErr, RetType: "String",
 			Rename: map[string]string{"VerifyJWTAssertion()": "Hand.asrtVerifyJWTAssertion (verifier).tokenOf (Gen.VerifyJWTAssertion now)",
-				"verifier.JWTProfileVerifier()": "(ProviderJWTProfileVerifier now reqIssuer verifier)"}}),
+				"verifier.JWTProfileVerifier()": "(Hand.asrtJWTProfileVerifier (ProviderJWTProfileVerifier now) reqIssuer verifier)"}}),
 		// the registered method: an assertion authenticates only clients registered for private_key_jwt (helper of ClientIDFromRequest,
 		// authenticateResourceClient and ParseTokenRevocationRequest); client_secret_post only when the provider has it switched on
 		ep(FuncSpec{File: "pkg/op/client.go", Name: "checkPrivateKeyJWTClient", Lean: "checkPrivateKeyJWTClient",
@@ -72,14 +76,14 @@ func init() {
 		ep(FuncSpec{File: "pkg/op/token_revocation.go", Name: "ParseTokenRevocationRequest", Lean: "ParseTokenRevocationRequest",
 			Params: []string{pI, "(r : AsrtHttpReq)", "(revoker : AsrtProvider)"}, Ret: RetValErr, RetType: "(String × String × String)",
 			Rename: map[string]string{"VerifyJWTAssertion()": "Hand.asrtVerifyJWTAssertion (revoker).tokenOf (Gen.VerifyJWTAssertion now)",
-				"revokerJWTProfile.JWTProfileVerifier()": "(ProviderJWTProfileVerifier now reqIssuer revokerJWTProfile)",
+				"revokerJWTProfile.JWTProfileVerifier()": "(Hand.asrtJWTProfileVerifier (ProviderJWTProfileVerifier now) reqIssuer revokerJWTProfile)",
 				"url.QueryUnescape()": "(r).queryUnescape", "AuthorizeClientIDSecret()": "Hand.asrtAuthorizeClientIDSecret",
 				"checkPrivateKeyJWTClient()": "checkPrivateKeyJWTClient now", "checkAuthMethodPost()": "checkAuthMethodPost now"}}),
 		// private_key_jwt at the token endpoint: additionally the registered method
 		ep(FuncSpec{File: "pkg/op/token_request.go", Name: "AuthorizePrivateJWTKey", Lean: "AuthorizePrivateJWTKey",
 			Params: []string{pI, "(clientAssertion : Token)", pP}, Ret: RetValErr, RetType: "OPClient",
 			Rename: map[string]string{"VerifyJWTAssertion()": "Hand.asrtVerifyToken (Gen.VerifyJWTAssertion now)",
-				"exchanger.JWTProfileVerifier()": "(ProviderJWTProfileVerifier now reqIssuer exchanger)"}}),
+				"exchanger.JWTProfileVerifier()": "(Hand.asrtJWTProfileVerifier (ProviderJWTProfileVerifier now) reqIssuer exchanger)"}}),
 		// the jwt-bearer grant of the Provider router and of the legacy server
 		ep(FuncSpec{File: "pkg/op/token_jwt_profile.go", Name: "JWTProfile", Lean: "JWTProfile",
 			Params: []string{pI, "(rq : Go.R AsrtGrantRequest)", pP}, Ret: RetResp, RetType: "AsrtResp",
@@ -87,13 +91,13 @@ func init() {
 			Writers:  map[string]string{"RequestError": "AsrtResp.requestError", "httphelper.MarshalJSON": "AsrtResp.json"},
 			Rename: map[string]string{"ParseJWTProfileGrantRequest()": "Hand.asrtParseGrantRequest rq",
 				"VerifyJWTAssertion()":           "Hand.asrtVerifyJWTAssertion (exchanger).tokenOf (Gen.VerifyJWTAssertion now)",
-				"exchanger.JWTProfileVerifier()": "(ProviderJWTProfileVerifier now reqIssuer exchanger)",
+				"exchanger.JWTProfileVerifier()": "(Hand.asrtJWTProfileVerifier (ProviderJWTProfileVerifier now) reqIssuer exchanger)",
 				"CreateJWTTokenResponse()":       "Hand.asrtCreateJWTTokenResponse"}}),
 		ep(FuncSpec{File: "pkg/op/server_legacy.go", Name: "LegacyServer.JWTProfile", Lean: "LegacyJWTProfile",
 			Params: []string{pI, "(s : AsrtLegacyServer)", "(r : AsrtRequest AsrtGrantRequest)"}, Ret: RetValErr, RetType: "AsrtTokenResponse",
 			Rename: map[string]string{
 				"VerifyJWTAssertion()":           "Hand.asrtVerifyJWTAssertion ((s).provider).tokenOf (Gen.VerifyJWTAssertion now)",
-				"exchanger.JWTProfileVerifier()": "(ProviderJWTProfileVerifier now reqIssuer exchanger)",
+				"exchanger.JWTProfileVerifier()": "(Hand.asrtJWTProfileVerifier (ProviderJWTProfileVerifier now) reqIssuer exchanger)",
 				"CreateJWTTokenResponse()":       "Hand.asrtCreateJWTTokenResponse",
 				"unimplementedGrantError()":      "Hand.asrtUnimplementedGrantError"}}),
 		ep(FuncSpec{File: "pkg/op/server_legacy.go", Name: "LegacyServer.authenticateResourceClient", Lean: "LegacyAuthenticateResourceClient",
